@@ -95,6 +95,31 @@ def special_sources():
         add('odd-doc-%d-dead' % i, "def f():\n    %s\n    def live(): return 2\n    return live\n    def dead(): return 3\n" % doc)
         add('odd-doc-%d-order' % i, "def f(x):\n    %s\n    if x:\n        return (lambda: 'b'), 'a'\n    return 'a', (lambda: 'c'), 5\n" % doc)
         add('odd-doc-%d-class' % i, "class C:\n    %s\n    def m(self, k=(1, 2)):\n        %s\n        return k, 1\n" % (doc, doc))
+    # <=3.9: statements the compiler removes after the last instruction leave line-table rows at offset len(co_code)
+    # (-> `_additional_line`, several rows -> non-empty `additional_offsets`); a 254-line gap before `class`, `break` /
+    # `return` after a one-line `if` leave extra rows on instructions without an operand (-> `_line_offsets_override` on
+    # POP_TOP / LOAD_BUILD_CLASS / BREAK_LOOP): fields only these layouts fill (seeded changes C08-r5, C10-r5, C12-r5, C15-r5)
+    add('addline-1', "def f(a):\n    return a\n    a = 2\n")
+    add('addline-2', "def f(a):\n    return a\n    a = 2\n    b = 3\n")
+    add('addline-3', "def f(a):\n    return a\n    a = 2\n\n\n    b = 3\n    c = 4\n")
+    add('addline-yield', "def f(a):\n    return a\n    yield 1\n    yield 2\n")
+    add('addline-while-else', "def f(a):\n    while 1:\n        return a\n    else:\n        a = 1\n        b = 2\n")
+    add('addline-far', "def f(a):\n    return a\n" + NL * 300 + "    a = 2\n    b = 3\n")
+    add('addline-nested', "def o():\n    def f(a):\n        return a\n        a = 2\n        b = 3\n    return f\n    x = 1\n    y = 2\n")
+    add('lineoffs-class254', "x = 1\n" + NL * 253 + "class C:\n    pass\n")
+    add('lineoffs-class255', "x = 1" + NL * 254 + "class C:\n    pass\n")
+    add('lineoffs-break', "def f(d):\n    while True:\n        if not d: break\n")
+    add('lineoffs-return', "def f(c, xs):\n    for x in xs:\n        if c: g(); return\n")
+    # <=3.9: the peephole pass deletes the test of `if f"a":` but keeps the empty else branch: a JUMP_FORWARD with
+    # displacement 0 that is the only jump to its target (seeded change C13-r5)
+    add('jf0-fn', 'def f(x):\n    if f"a":\n        x = 1\n    else:\n        pass\n    return x\n')
+    add('jf0-module', 'if f"a":\n    x = 1\nelse:\n    pass\ny = 2\n')
+    add('jf0-try', 'def f(x):\n    try:\n        if f"a":\n            x = 1\n        else:\n            pass\n    finally:\n        x = 2\n    return x\n')
+    add('jf0-several', 'def f(a):\n    if f"a":\n        a = 1\n    else:\n        pass\n    if f"b":\n        a = 2\n    else:\n        pass\n    while a:\n        if f"c":\n            a -= 1\n        else:\n            pass\n    return a\n')
+    # int constants no C double can hold (>= 2**1024): any float(i) / math.isnan(i) on the way raises OverflowError
+    # (seeded change C07-r5); also as default value, in a tuple, in a set-membership test, in a nested function
+    add('huge-int', "x = %d\ny = -%d\nz = (%d, 1)\nw = x in {%d, 2}\ndef f(a=%d):\n    return a + %d\n" % (
+        2 ** 1024, 10 ** 400, 2 ** 1024 - 2 ** 970, 2 ** 1024 + 1, 2 ** 2000, 10 ** 309))
     # ladders of nested ifs whose exits are consecutive one-instruction statements around the 255/256 operand
     # boundary: the jump-size fix point needs one more round per level (only normalized / hand-built data recompute it)
     for depth in (3, 4, 5):
